@@ -141,3 +141,46 @@ def ops_trace_validate(work, rep, trace, scen, db, store, name="opsval"):
     if not r.ok:
         raise Inconclusive("Trace_Ops failed on %s/%s: %s\n%s" % (scen, store, r.error or r.violated, r.out[-2500:]))
     return {"scenario": scen, "store": store, "runs": nruns, "accepted": True}
+
+
+def hist_judge(work, rep, trace, nproc, name="hist"):
+    """Trace_Hist: linearization-independent monitors over concurrent histories (C01 one history, C20 counters). Returns FAIL tuples."""
+    c = dict(OPS_BASE)
+    c.update(TraceFile=trace, Procs=set(range(1, nproc + 1)))
+    r = tlc(work, "MC_Trace_Hist", cfg_text(spec="Spec", constants=c, action_constraints=["Monitor"], postcondition="Done"), name=name, workers=1, timeout=1800, heap="8g")
+    if not r.ok:
+        raise Inconclusive("history judge failed: %s\n%s" % (r.error or r.violated, r.out[-3000:]))
+    return [["FAIL", f["id"], f["name"], f["i"], f["run"], f["k"], f["sig"]] for f in map(json.loads, r.prints("FAIL"))]
+
+
+def concurrent_histories(work, rep, tier, seed, prop, binp=None):
+    """C01 (and whoever else wants concurrent histories): TLC-listed interleavings of conflicting first use / forks / growth on both stores,
+    the in-memory interleavings forced on SQLite, and free-running clients; judged by Trace_Hist for `prop`."""
+    import seqfam
+    progs = scenario_programs(work)
+    scens = ["Sc_TofuFork", "Sc_GrowFork", "Sc_TofuSizes", "Sc_GrowSizes"] + ([] if tier == "quick" else ["Sc3_TofuTofuTofu", "Sc3_GrowGrowGrow", "Sc_GrowRefresh", "Sc_TofuSame"])
+    by_store = {"InMem": [], "Sql1": []}
+    for scen in scens:
+        db = dict(SCEN2, **SCEN3)[scen]
+        lists = {}
+        for store in ("InMem", "Sql1"):
+            lists[store] = ops_list(work, scen, ops_consts(scen, db, store))
+            for j, s in enumerate(lists[store]):
+                by_store[store].append({"id": "%s-%d" % (scen, j), "mode": "gated", "eager": True, "db0": db0_of(db), "prog": progs[scen], "sched": s["sched"]})
+        for j, s in enumerate(lists["InMem"][::2 if tier == "quick" else 1]):
+            by_store["Sql1"].append({"id": "%sx-%d" % (scen, j), "mode": "gated", "eager": True, "waitms": 40, "db0": db0_of(db), "prog": progs[scen], "sched": s["sched"]})
+    n = 0
+    all_events = []
+    for store, runs in by_store.items():
+        rp, tp = work.path("conc-%s.jsonl" % store), work.path("conc-%s.ndjson" % store)
+        write_runs(rp, OPS_PARAMS, runs)
+        o, dt = run_driver(["ops", "-in", rp, "-out", tp, "-store", {"InMem": "inmem", "Sql1": "sqlfile"}[store], "-seed", str(seed), "-workers", str(NCPU), "-dir", work.sub("db")])
+        rep.notes.append("concurrent/" + o.strip())
+        events = read_ndjson(tp)
+        fails = hist_judge(work, rep, tp, 4, name="hist-" + store)
+        seqfam.settle(rep, prop, fails, events, dict(OPS_BASE), extra_replay={"store": store, "kind": "forced interleaving"})
+        n += len(runs)
+        all_events += events
+    rep.cov["concurrent_histories"] = n
+    rep.cov["traces_validated_against_impl"] += n
+    return all_events
